@@ -37,7 +37,9 @@ CLAIM = dict(
     "ORIGINAL labels for OpenCV's index rule (exact floor, one below at tabulated double-rounding breakpoints); poly_span for all d; "
     "KernelInterpolation as a state machine: for ALL update sequences cached inverse and weights belong to the current kernel / "
     "supports / values, hence reproduction at the current supports when the current kernel matrix is invertible (abstract kernel, any "
-    "field); the accumulation loop of linear_combination = plain kernel sum for every kernel function and the three signal shapes. "
+    "field); the accumulation loop of linear_combination = plain kernel sum for every kernel function and the three signal shapes; a failing "
+    "update (single model, CombinedModel, KernelInterpolation.update) leaves the old state in force - modelled (stepS / updateAllS), the "
+    "kernel invariants hold across failing ops without hypothesis, tied by evaluating the object after every failing update. "
     "Definitional (unfold the pointwise model, kept as clause forms): hetero_eq_homog_on_label, threshold_strict, threshold_hetero, "
     "wrapper_eq_model_on_label, hetero_result_type; routing_one / routing_subset restate the class dispatch restricted to one slice. "
     "Tie: exact differential correspondence of the OPERATIONAL models on dyadic inputs for float64, float32, uint8, uint16 and int64 "
@@ -46,7 +48,7 @@ CLAIM = dict(
     note="OBSERVED ONLY: exp (GaussianKernel), np.linalg.inv, float32 rounding and fastmath on non-dyadic data (reproduction 1e-4, numba vs "
     "plain sum 1e-5, on fresh objects and along update sequences incl. AdvancedKernelInterpolation); the kernel state machine's weights "
     "are compared with inv(K(key)) @ values for the key the model predicts (1e-6 cond). Not modelled: 3-D label volumes; Image inputs "
-    "other than for ClipModel (behaviour recorded in the evidence); states after an exception; cv2 index rule beyond n,N = 64 (theorems "
+    "other than for ClipModel (behaviour recorded in the evidence); cv2 index rule beyond n,N = 64 (theorems "
     "hold for any rounding table of the stated form, the tie stops at 64). Known finding: KernelInterpolation.update_model_parameters "
     "with the kernel dof / default dofs.",
     technique="Lean 4 proof + G1 tabulation + differential correspondence + property oracle",
@@ -171,7 +173,10 @@ class Case:
             else:
                 r = call(target.update_model_parameters, arr, None if dofs is None and kind == "all" else ("all" if kind == "all" else dofs[0][1]))
             if isinstance(r, Raised):
-                return repr(r)
+                # a failing update must leave the old state in force: evaluate anyway
+                out = call(target, sig.copy())
+                tail = repr(out) if isinstance(out, Raised) else ("!shape" if np.asarray(out).shape != sig.shape else dtok(out) + " " + fmts(np.asarray(out).ravel()))
+                return repr(r) + " ; " + tail
         out = call(target, sig.copy())
         if isinstance(out, Raised):
             return repr(out)
@@ -995,7 +1000,7 @@ def run_kern_ops(d, nrng, k0, ops):
     -> (request line for the model, canonical impl response, object or None)"""
     kernels = [_kernel(d, k) for k in KERNELS]
     ki = call(d.KernelInterpolation, kernels[k0])
-    toks, err = [], None
+    toks, errs = [], []
 
     def fr(x):
         return fmt(Fraction(float(x)))
@@ -1017,15 +1022,12 @@ def run_kern_ops(d, nrng, k0, ops):
             toks.append(f"vp {len(ps)} " + " ".join(fr(x) for x in ps))
             r = call(ki.update_model_parameters, np.array(ps), ["values"])
         if isinstance(r, Raised):
-            err = f"{r!r}@{i}"
-            break
-    line = f"kern {k0} {len(toks)} " + " ".join(toks)
-    if err:
-        return line, err, None
+            errs.append(f"{i}:{r!r}")  # the object must be as before this op: go on
+    line = f"kernc {k0} {len(toks)} " + " ".join(toks)
     kid = next((j for j, k in enumerate(kernels) if ki.kernel is k), None)
     S = None if ki.supports is None else np.asarray(ki.supports, dtype=float)
     V = None if ki.values is None else np.asarray(ki.values, dtype=float)
-    resp = (f"{kid} | {int(ki.num_supports)} | " + ("none" if S is None else " ; ".join(" ".join(fr(c) for c in row) for row in S)) + " | "
+    resp = ("E " + " ".join(errs) + f" | {kid} | {int(ki.num_supports)} | " + ("none" if S is None else " ; ".join(" ".join(fr(c) for c in row) for row in S)) + " | "
             + ("none" if V is None else " ".join(fr(x) for x in V)))
     return line, resp, ki
 
@@ -1035,19 +1037,16 @@ def kernel_state_correspondence(ctx, d):
     n = ctx.pick(60, 500)
     cases = []
     for t in range(n):
-        k0, ops = gen_kern_ops(nrng, malformed=(t % 7 == 6))
+        k0, ops = gen_kern_ops(nrng, malformed=(t % 4 == 3))
         cases.append(run_kern_ops(d, nrng, k0, ops))
     got = ctx.model([c[0] for c in cases])
     diffs, worst, nerr, worst_ratio = [], 0.0, 0, 0.0
     for (line, resp, ki), g in zip(cases, got):
         ctx.count(("kern", line))
-        if ki is None:
+        if resp.startswith("E ") and not resp.startswith("E  |"):
             nerr += 1
-            if g.strip() != resp:
-                diffs.append((line, g[:120], resp))
-            continue
         head, _, w = g.rpartition(" | ")
-        if head.strip() != resp:
+        if head.strip() != resp.strip():
             diffs.append((line, g[:160], resp))
             continue
         # the model says which inverse was used: weights must be inv(K(key kernel, key supports)) @ vals
@@ -1072,7 +1071,7 @@ def kernel_state_correspondence(ctx, d):
             diffs.append((line, f"weights differ from inv(K(kernel {kid}, its supports)) @ values by {e:.3g}", ""))
     ctx.cov.setdefault("correspondence", {})["kernel-interpolation-state-machine"] = {
         "cases": len(cases), "error_cases": nerr, "disagreements": len(diffs), "max_rel_weight_diff": worst, "max_diff_over_tolerance": worst_ratio,
-        "compares": "kernel in force, num_supports, supports (sorted/de-duplicated), values (re-indexed) exactly; interpolation_weights against "
+        "compares": "positions and classes of the failing ops (every op is executed; a failing one must leave the object as it was), kernel in force, num_supports, supports (sorted/de-duplicated), values (re-indexed) exactly; interpolation_weights against "
                     "inv(K(key)) @ values for the key the model predicts (1e-6 * cond(K), K is assembled in float32); error class and position"}
     ctx.sample({"corr": "kernel-state", "request": cases[0][0][:300], "model": got[0][:300], "impl": cases[0][1][:300]})
     if diffs:
@@ -1319,6 +1318,135 @@ def observe_image_inputs(ctx, d):
     ctx.notes.append("Image inputs are in the API of ClipModel only (checked by the oracle); for the other classes the behaviour is recorded under image_inputs_observed, not asserted")
 
 
+# ---------------------------------------------------------------------------
+# failed updates: a call of update_model_parameters / update that raises must leave the object usable with its OLD state
+
+
+def extract_update_paths():
+    """G2 (static view, recorded in the evidence): for every update method the order of `self.x = ...` assignments and of the
+    statements that can raise (assert / raise / subscripts of `parameters` / calls of other methods), and whether the method puts
+    the previous state back when an exception passes through (try ... except: restore; raise)."""
+    import ast
+
+    from ..lib.core import REPO
+
+    targets = {"signals/models/clipmodel.py": ["ClipModel"], "signals/models/linearmodel.py": ["ScalingModel", "LinearModel", "HeterogeneousLinearModel"],
+               "signals/models/combinedmodel.py": ["CombinedModel"], "signals/models/kernelinterpolation.py": ["KernelInterpolation"]}
+    out = {}
+    for rel, classes in targets.items():
+        try:
+            tree = ast.parse((REPO / "src" / "darsia" / rel).read_text())
+        except (OSError, SyntaxError) as e:
+            out[rel] = f"unreadable: {e}"
+            continue
+        for cls in [n for n in tree.body if isinstance(n, ast.ClassDef) and n.name in classes]:
+            for fn in [n for n in cls.body if isinstance(n, ast.FunctionDef) and n.name in ("update", "update_model_parameters", "update_kernel", "_compatibility", "setup_kernel_problem", "update_interpolation")]:
+                events, restores = [], False
+                for node in ast.walk(fn):
+                    if isinstance(node, ast.Try) and any(isinstance(x, ast.Raise) and x.exc is None for h in node.handlers for x in ast.walk(h)):
+                        restores = True
+                for node in sorted((n for n in ast.walk(fn) if hasattr(n, "lineno")), key=lambda n: (n.lineno, n.col_offset)):
+                    if isinstance(node, (ast.Assign, ast.AugAssign)):
+                        for t in (node.targets if isinstance(node, ast.Assign) else [node.target]):
+                            for a in ast.walk(t):
+                                if isinstance(a, ast.Attribute) and isinstance(a.value, ast.Name) and a.value.id == "self" and isinstance(a.ctx, ast.Store):
+                                    events.append(f"assign self.{a.attr}")
+                    elif isinstance(node, ast.Delete):
+                        events.append("delete attribute")
+                    elif isinstance(node, ast.Assert):
+                        events.append("assert")
+                    elif isinstance(node, ast.Raise) and node.exc is not None:
+                        events.append("raise")
+                    elif isinstance(node, ast.Call) and isinstance(node.func, ast.Attribute) and isinstance(node.func.value, ast.Name) and node.func.value.id in ("self", "model"):
+                        events.append(f"call {node.func.attr}")
+                    elif isinstance(node, ast.Subscript) and isinstance(node.value, ast.Name) and node.value.id == "parameters" and not isinstance(node.slice, ast.Slice):
+                        events.append("index parameters")
+                first_risk = next((i for i, e in enumerate(events) if not e.startswith("assign")), len(events))
+                assigns_before_risk = any(e.startswith("assign") for e in events[:first_risk]) and first_risk < len(events)
+                out[f"{cls.name}.{fn.name}"] = {"events": events, "restores_on_exception": restores,
+                                                "assigns_before_a_statement_that_can_raise": assigns_before_risk}
+    return out
+
+
+def oracle_failed_updates(ctx, d):
+    rng = ctx.rng
+    vals = [Fraction(k, 4) for k in range(-12, 13)]
+    L = 2
+    pix = [(i % L, v) for i, v in enumerate(vals)]
+    proto = {"clip": ("clip", F(-1), F(2)), "scaling": ("scaling", F(3)), "linear": ("linear", F(2), F(1)), "het": ("het", 2, [F(2), F(3)], [F(1), F(-1)])}
+    c0 = Case("comb", [proto["clip"]], None, pix, [5, 10], (5, 5))
+    lab, sig = c0.arrays()
+
+    def attempts(kind):
+        n = n_params(proto[kind])
+        yield "too few parameters", np.arange(1.0, n), None              # one short
+        yield "empty parameter vector", np.array([]), None
+        yield "unknown dof", np.arange(1.0, 9.0), ["no_such_dof"]
+        yield "dof of another model", np.arange(1.0, 9.0), ["min_value"] if kind not in ("clip",) else ["scaling"]
+        if kind == "het":
+            yield "too few for one dof", np.arange(1.0, 2.0), ["offset"]
+
+    # (A) single models
+    for kind in KINDS:
+        for what, params, dofs in attempts(kind):
+            m = build(d, proto[kind], lab)
+            before = call(m, sig.copy())
+            r = call(m.update_model_parameters, params) if dofs is None else call(m.update_model_parameters, params, dofs)
+            ctx.count(("failed-update", kind, what))
+            if not isinstance(r, Raised):
+                continue  # the update was accepted (e.g. the label-wise model ignores unknown dofs): nothing to check here
+            after = call(m, sig.copy())
+            if isinstance(after, Raised) or isinstance(before, Raised) or not np.array_equal(after, before):
+                ctx.fail(f"C14:{CLASS_OF[kind]}.update_model_parameters:failed-update-changes-state",
+                         f"{CLASS_OF[kind]}.update_model_parameters ({what}) raised {r!r}, but afterwards the model no longer behaves as before the call",
+                         {"failed_update": {"kind": kind, "parameters": params.tolist(), "dofs": dofs}, "raised": repr(r),
+                          "after": repr(after) if isinstance(after, Raised) else np.asarray(after).ravel().tolist()[:6],
+                          "before": None if isinstance(before, Raised) else np.asarray(before).ravel().tolist()[:6]})
+    # (B) CombinedModel: a failure in a later sub-model
+    for kinds in (["clip", "linear"], ["het", "clip"], ["scaling", "het", "linear"]):
+        models = [proto[k] for k in kinds]
+        need = sum(n_params(m) for m in models)
+        for what, params, dofs in (("vector one short", np.arange(1.0, need), None),
+                                   ("second entry has an unknown dof", np.arange(1.0, 9.0), [(0, KIND_DOFS[kinds[0]][:1]), (1, ["no_such_dof"])])):
+            comb = d.CombinedModel([build(d, m, lab) for m in models])
+            before = call(comb, sig.copy())
+            r = call(comb.update_model_parameters, params) if dofs is None else call(comb.update_model_parameters, params, dofs)
+            ctx.count(("failed-update-comb", tuple(kinds), what))
+            if not isinstance(r, Raised):
+                continue
+            after = call(comb, sig.copy())
+            if isinstance(after, Raised) or not np.array_equal(after, before):
+                ctx.fail("C14:CombinedModel.update_model_parameters:failed-update-partially-applied",
+                         f"CombinedModel.update_model_parameters ({what}) raised {r!r} after it had already updated the earlier sub-models",
+                         {"failed_update": {"models": [tok_model(m) for m in models], "parameters": params.tolist(), "dofs": dofs}, "raised": repr(r)})
+    # (C) KernelInterpolation.update
+    nrng = np.random.default_rng(rng.randrange(2**31))
+    probe = nrng.uniform(0, 3, (5, 3)).astype(np.float32)
+    for kname in ("GaussianKernel", "LinearKernel"):
+        S = gen_supports(nrng, "*", 3)
+        B = gen_supports(nrng, "*", 3)
+        for what, kw in (("values of the wrong length", dict(values=np.array([0.5, 0.25]))),
+                         ("new supports with values of the wrong length", dict(supports=B.copy(), values=np.array([0.5]))),
+                         ("fewer supports, stored values re-used", dict(supports=B[:2].copy())),
+                         ("append values only", dict(values=np.array([0.5]), append=True))):
+            kern = _kernel(d, kname)
+            ki = d.KernelInterpolation(kern, S.copy(), np.array([0.25, 0.5, 0.75]))
+            before = _plain_eval(d, kern, ki, probe)
+            sup0, val0 = np.array(ki.supports, copy=True), np.array(ki.values, copy=True)
+            r = call(ki.update, **kw)
+            ctx.count(("failed-update-kernel", kname, what))
+            if not isinstance(r, Raised):
+                continue
+            after = call(ki, probe)
+            same_attrs = ki.supports is not None and np.array_equal(ki.supports, sup0) and ki.values is not None and np.array_equal(ki.values, val0)
+            if isinstance(after, Raised) or not np.allclose(np.asarray(after, dtype=float), before, atol=1e-5) or not same_attrs:
+                ctx.fail("C14:KernelInterpolation.update:failed-update-changes-state",
+                         f"KernelInterpolation.update ({what}) raised {r!r}, but left supports / values / weights in a mixed state",
+                         {"failed_kernel_update": {"kernel": kname, "supports": S.tolist(), "update": {k: (v.tolist() if hasattr(v, 'tolist') else v) for k, v in kw.items()}},
+                          "raised": repr(r), "supports_and_values_unchanged": bool(same_attrs),
+                          "after": repr(after) if isinstance(after, Raised) else np.asarray(after, dtype=float).tolist(), "before": np.asarray(before).tolist()})
+
+
 def oracle_kernel(ctx, d):
     rng = np.random.default_rng(ctx.rng.randrange(2**31))
     worst_rep, worst_numba = 0.0, 0.0
@@ -1509,6 +1637,8 @@ def run(ctx):
     oracle_models(ctx, d)
     oracle_threshold(ctx, d, thr)
     oracle_zero_updates(ctx, d)
+    oracle_failed_updates(ctx, d)
+    ctx.cov["update_paths_static"] = extract_update_paths()
     observe_image_inputs(ctx, d)
     oracle_label_sequences(ctx, d)
     oracle_kernel(ctx, d)
@@ -1522,8 +1652,8 @@ def run(ctx):
         "np.clip / numpy broadcasting / boolean mask assignment semantics (tied by the exact correspondence on dyadic inputs)",
         "np.isclose default tolerances 1e-8 + 1e-5 (ScalingModel shortcut); inputs stay away from the threshold",
         "kernel interpolation: exp, np.linalg.inv, float32 casts and numba kernels are observed with tolerances, not modelled",
-        "states after an exception are outside the theorems (hypothesis: the sequence does not raise): e.g. KernelInterpolation.update(values=<wrong length>) "
-        "overwrites self.values before the matrix product raises, leaving values and interpolation_weights inconsistent (a C16-style question, not checked here)",
+        "failed updates: every update path is executed with raising arguments and the object must behave as before (oracle + correspondence, which "
+        "evaluates the model after every failing update); the static order of assignments vs raising statements is recorded under update_paths_static",
         "label-wise thresholding and the HeterogeneousModel wrapper accept 2-D signals only (a (H,W,C) signal raises a broadcasting error); "
         "HeterogeneousLinearModel takes (H,W) and (H,W,C) signals with 2-D labels (both in the tie)",
     ]
